@@ -297,7 +297,8 @@ def extract_pin_cite(
             extra_chars = len(m["pin_cite"].rstrip(", "))
         else:
             pin_cite = None
-            extra_chars = 0
+            # prefix is part of from_token, so it must not shorten the span
+            extra_chars = len(prefix)
         parenthetical = process_parenthetical(m["parenthetical"])
         return (
             pin_cite,
